@@ -16,15 +16,15 @@ Selected(sel) == CASE sel = "none" -> Cols [] sel = "a" -> {"a"} [] sel = "ab" -
 Init == \E fn \in {"timeshift", "detrend"} : \E sel \in Selections : \E inplace \in BOOLEAN : \E trunc \in {"none", "true", "two", "huge"} :
         \E zero \in BOOLEAN : \E samp \in {1, 3} : \E chain \in BOOLEAN :
            /\ (fn = "detrend" => trunc = "none" /\ ~zero /\ samp = 1)
-           /\ (chain => fn = "timeshift" /\ ~zero /\ trunc = "none" /\ sel # "zz")
+           /\ (chain => ~zero /\ trunc = "none" /\ sel # "zz")
            /\ c = [fn |-> fn, sel |-> sel, inplace |-> inplace, trunc |-> trunc, zero |-> zero, samples2 |-> samp,   \* shift = samples2/2 samples
                    chain |-> chain]     \* a second call, on the first call's result: every numeric column, one sample, not in place
 Next == UNCHANGED c
 Spec == Init /\ [][Next]_<<c>>
 
+Suffix == IF c.fn = "timeshift" THEN "_shifted" ELSE "_detrended"
 Missing == Selected(c.sel) \ Cols # {}
 Transformed == Selected(c.sel) \cap Numeric
-Suffix == IF c.fn = "timeshift" THEN "_shifted" ELSE "_detrended"
 (* rows removed from EACH end by truncate *)
 NTrunc == CASE c.trunc = "none" -> 0 [] c.trunc = "true" -> c.samples2 [] c.trunc = "two" -> 2 [] c.trunc = "huge" -> NRows   \* int(2*|samples|) = samples2
 Rows == IF NTrunc = 0 THEN NRows ELSE IF 2 * NTrunc >= NRows THEN 0 ELSE NRows - 2 * NTrunc
@@ -36,24 +36,28 @@ Outcome ==
 (***************************************************************************)
 (* Sequences of calls: a frame is a function from the names of its numeric *)
 (* columns to their provenance <<root column, shifts applied so far>> (in  *)
-(* half samples).  One call reads every selected column FROM ITS INPUT     *)
+(* half samples; for df_detrend: the detrend orders applied so far - the   *)
+(* chained call uses order 0 after order 1, which is not idempotent).      *)
+(* One call reads every selected column FROM ITS INPUT     *)
 (* FRAME and writes the shifted copy under the target name - a target that *)
 (* already exists (a_shifted from an earlier call) is overwritten, and is  *)
 (* itself shifted from its OLD contents into a_shifted_shifted.            *)
 (***************************************************************************)
 Frame0 == [n \in Numeric |-> <<n, <<>> >>]
-Target(n, inplace) == IF inplace THEN n ELSE n \o "_shifted"
+Target(n, inplace) == IF inplace THEN n ELSE n \o Suffix
 ApplyShift(fr, sel, inplace, s2) ==            \* sel: a set of column names (non-numeric and unknown ones are ignored here)
     LET T == sel \cap DOMAIN fr
         targets == {Target(t, inplace) : t \in T}
         src(n) == CHOOSE t \in T : Target(t, inplace) = n
     IN [n \in DOMAIN fr \cup targets |-> IF n \in targets THEN <<fr[src(n)][1], Append(fr[src(n)][2], s2)>> ELSE fr[n]]
-AfterFirst == ApplyShift(Frame0, Selected(c.sel), c.inplace, c.samples2)
-AfterChain == ApplyShift(AfterFirst, DOMAIN AfterFirst, FALSE, 2)
+FirstOp  == IF c.fn = "timeshift" THEN c.samples2 ELSE 1          \* half samples / detrend order
+SecondOp == IF c.fn = "timeshift" THEN 2 ELSE 0
+AfterFirst == ApplyShift(Frame0, Selected(c.sel), c.inplace, FirstOp)
+AfterChain == ApplyShift(AfterFirst, DOMAIN AfterFirst, FALSE, SecondOp)
 (* no column is ever shifted twice by one call: after the chain every provenance has at most two shifts, the second being the chain's *)
 ChainShiftsOnce == c.chain => \A n \in DOMAIN AfterChain : Len(AfterChain[n][2]) <= 2
 (* a duplicate in the selection changes nothing *)
-DuplicateSelectionIsIdempotent == c.sel = "aa" => AfterFirst = ApplyShift(Frame0, {"a"}, c.inplace, c.samples2)
+DuplicateSelectionIsIdempotent == c.sel = "aa" => AfterFirst = ApplyShift(Frame0, {"a"}, c.inplace, FirstOp)
 
 (* selected columns only: nothing outside the selection, and no non-numeric column, is ever transformed *)
 OnlySelectedNumeric == Outcome.kind = "frame" => Outcome.transformed \subseteq (Selected(c.sel) \cap Numeric)
